@@ -91,6 +91,10 @@ class C18Sim(calsim.CalSim):
         when = f"after op {len(self.op_results)} {op[0]}"
         if self.cal is None or r.get("fatal"):
             return r
+        if op[0] == "restore":
+            # a restore legitimately goes back to the table of the checkpoint (classes added after it are gone again);
+            # what must hold is that the restored table maps every restored label to its producer (checked in after())
+            self.ref_table = {}
         if op[0] in ("calibrate", "set_samplers", "set_scheduler", "restore"):
             self.after(when)
         if op[0] == "calibrate" and self.folder is not None and r["exc"] is None:
@@ -111,7 +115,7 @@ class C18(Check):
             "at least once and at least 2 batches completed; distinct = distinct (line-ups, op kinds)")
     assumptions = ["Calibrator, checkpointing, plot_results helper: real code (matplotlib/seaborn imported with the Agg back-end, nothing is drawn)",
                    "RL scheduler is not used here (set_scheduler is exercised with round-robin schedulers)"]
-    quick = {"runs": 300, "wall": 50, "item_timeout": 90}
+    quick = {"runs": 600, "wall": 150, "item_timeout": 300}
     thorough = {"runs": 15000, "wall": 900, "item_timeout": 180}
 
     def gen(self, rng, tier, i):
